@@ -142,7 +142,7 @@ def mutate(r, corpus):
 
 
 def pathological(r):
-    k = r.randrange(26)
+    k = r.randrange(30)
     n = r.choice([1, 2, 10, 100, 1000, 20000])
     d = r.choice([1, 5, 50, 150])
     if k == 0:
@@ -195,6 +195,20 @@ def pathological(r):
         return "a " + "=" * r.randint(1, 5) + r.choice(["", " 1", "="])
     if k == 24:
         return ", " * min(n, 1000)
+    if k == 26:
+        # format flags (parsed at parse time out of the `#...` comment of a format expression)
+        digits = r.choice(["0", "9", "1", "18446744073709551615", "18446744073709551616"]) if r.random() < 0.4 else "9" * r.choice([1, 5, 19, 20, 21, 40, 400])
+        flag = r.choice(["", "x", "X", "b", "o", "d", "<", ">", "^", "0", " ", "-", ".", "e", "r"])
+        return "F\"{x #" + r.choice(["", flag]) + digits + r.choice(["", flag, "." + digits]) + "}\""
+    if k == 27:
+        return "F\"{x " + r.choice([":", "::", "$", "#", "# #", "#(", "#)"]) + "9" * r.choice([1, 20, 40]) + "}\""
+    if k == 28:
+        # radix literals of every base at lengths around the machine-word boundaries
+        b = r.randint(2, 36)
+        digs = "0123456789abcdefghijklmnopqrstuvwxyz"[:b]
+        return "%dr%s" % (b, "".join(r.choice(digs) for _ in range(r.choice([1, 12, 13, 14, 15, 16, 17, 20, 33, 64, 65, 70, 200]))))
+    if k == 29:
+        return r.choice(["0x", "0b", "0o", "0X"]) + "".join(r.choice("01") for _ in range(r.choice([1, 31, 32, 63, 64, 65, 128, 129, 1000])))
     return "try " * d + "1" + " catch x -> 2" * r.randint(0, d)
 
 
